@@ -330,8 +330,13 @@ def norm_call(res_inst, res, args, fn=None):
             return mk_comm(op, args[0], args[1])
         return ("satsub", args[0], args[1])
     if _TRY_BRANCH.match(p):
+        # `x?` on an Option is a match on x: Continue(v) is Some(v), Break is None (see Evaluator for the renaming)
+        if p.startswith("<std::option::Option<"):
+            return ("tryopt", args[0])
         return ("try", args[0])
     if _FROM_RESIDUAL.match(p):
+        if p.startswith("<std::option::Option<"):
+            return ("enumc", "std::option::Option", "None")
         return ("propagate", args[0])
     return None
 
@@ -488,6 +493,9 @@ class Evaluator:
                     v = ("index", v, const("int", e["cidx"]))
                     continue
                 if "downcast" in e:
+                    if v[0] == "tryopt":
+                        v = ("downcast", v[1], "Some") if e["downcast"] == "Continue" else ("enumc", "std::option::Option", "None")
+                        continue
                     v = ("downcast", v, e["downcast"])
                     continue
             v = ("proj", v, str(e))
@@ -542,6 +550,9 @@ class Evaluator:
                     if nme == v[2]:
                         return const("int", d)
                 return ("variantof", v[2])
+            if v[0] == "tryopt":
+                ren = {"Continue": "Some", "Break": "None"}
+                return ("discr", v[1], tuple((d, ren.get(n, n)) for d, n in (rv.get("variants") or [])))
             return ("discr", v, tuple((d, n) for d, n in (rv.get("variants") or [])))
         if k == "agg":
             fs = tuple(self.operand(f, get) for f in rv["fields"])
